@@ -139,6 +139,11 @@ def gen_case(rng, full):
     npost = rng.choice([0, 1, 2])
     pre = [g.statement() for _ in range(npre)]
     post = [g.statement() for _ in range(npost)]
+    if rng.random() < 0.12:
+        # transaction control in front of the routine: BEGIN opens nothing here
+        from gens import kw, WS1
+        pre = [[kw('BEGIN')] + ([WS1, kw('TRANSACTION')] if rng.random() < 0.5 else [])] + pre + [[kw('COMMIT')]]
+        npre = len(pre)
     create = g.create()[:-2]            # drop the final WS0 ';' : separators are added below
     stmts = pre + [create] + post
     seps = [[gens.WS0, ('punct', ';'), gens.WS1] for _ in stmts]
